@@ -186,7 +186,12 @@ def r_build_ro(ctx):
     be = C06.build_entry(F)
     if not ctx.need(be is not None, rule, 'build entry'):
         return
-    reach = F.reach([be])
+    reach = dict(F.reach([be]))
+    # the build calls `D::preprocess` through the trait: every implementation (and the default) is part of the build
+    for pth, g0 in F.fns.items():
+        if (pth.endswith(' as distance::Distance>::preprocess') or pth == 'distance::Distance::preprocess') and not g0.in_test:
+            for g1 in F.family(g0):
+                reach.setdefault(g1.path, g1)
     n = 0
     for g in reach.values():
         for (_g, c, op, w, k) in db_ops(F, [g]):
